@@ -1,7 +1,9 @@
 /-
   C09 — lemmas for the close path: the retry loop never touches the closing flags, and with `UnwrapLaw` (the first
   `unwrap()` appends the close_notify alert record to the write BIO) the first thing the wrapped transport is asked to do is
-  to send bytes ending with that record.
+  to send bytes ending with that record — also when that `unwrap()` call FAILED with an SSL error after writing the alert
+  (`acloseUnwrap_alert_sent`; needs the clause `except SSLError: … __flush_pending_writes()` of `aclose`, i.e. the generated
+  `acloseFlushesOnSslError`).
 -/
 import EasyNet.Lemmas.TlsEofGen
 namespace EasyNet.TlsEof
@@ -209,5 +211,121 @@ theorem retry_unwrap_first (fuel : Nat) (s : St) (a : SslAns TExc) (out : Nat) (
       · simp only [Option.some.injEq, Prod.mk.injEq] at h
         obtain ⟨_, _, _, hc⟩ := h
         subst hc; rw [hw, hal]; exact ⟨_, rfl⟩
+
+/-! ### the inner `try` of `aclose` (unwrap, `except SSLError:` flush, `except OSError: pass`) -/
+
+theorem acloseUnwrap_frame (T : Tables ε) (fuel : Nat) (s : St) (script : List (Resp ε)) (x : Option (Exn ε)) (s' : St)
+    (rest : List (Resp ε)) (calls : List Call) (h : acloseUnwrap T fuel s script = some (x, s', rest, calls)) : s'.ctl = s.ctl := by
+  unfold acloseUnwrap at h
+  split at h
+  · simp at h
+  · rename_i n s2 rest2 calls2 hr
+    have F := retry_frame T .unwrap _ _ _ _ _ _ _ hr
+    simp only [Option.some.injEq, Prod.mk.injEq] at h
+    obtain ⟨_, hs, _, _⟩ := h
+    subst hs; exact F
+  · rename_i y s2 rest2 calls2 hr
+    have F := retry_frame T .unwrap _ _ _ _ _ _ _ hr
+    split at h
+    · split at h
+      · simp at h
+      · rename_i s3 rest3 calls3 hf
+        have G := flush_ctl _ _ _ _ _ _ hf
+        simp only [Option.some.injEq, Prod.mk.injEq] at h
+        obtain ⟨_, hs, _, _⟩ := h
+        subst hs; rw [G]; exact F
+      · rename_i z s3 rest3 calls3 hf
+        have G := flush_ctl _ _ _ _ _ _ hf
+        simp only [Option.some.injEq, Prod.mk.injEq] at h
+        obtain ⟨_, hs, _, _⟩ := h
+        subst hs; rw [G]; exact F
+    · simp only [Option.some.injEq, Prod.mk.injEq] at h
+      obtain ⟨_, hs, _, _⟩ := h
+      subst hs; exact F
+
+/-- the first `unwrap()` FAILED: it raised an `SSLError` that is neither WANT_READ nor WANT_WRITE (OpenSSL's "application data
+    after close notify", `SSLEOFError`, `SSLZeroReturnError`, `SSLSyscallError`, …) -/
+def UnwrapFail (a : SslAns TExc) : Prop :=
+  ∃ e p, a = .raise e p ∧ tables.sub e tables.sslError = true ∧ tables.sub e tables.wantReadCls = false ∧
+    tables.sub e tables.wantWriteCls = false
+
+theorem fact_fail_act (e : TExc) (h1 : tables.sub e tables.sslError = true) (h2 : tables.sub e tables.wantReadCls = false)
+    (h3 : tables.sub e tables.wantWriteCls = false) : retryAct tables tables.retryClauses e = some .markEofReraise := by
+  cases e <;> first | rfl | (exfalso; revert h1 h2 h3; decide)
+
+/-- the generated table says `aclose` has the clause `except SSLError: with suppress(OSError): await self.__flush_pending_writes()`
+    around the unwrap (a tree without it — the alert written by a failing `unwrap()` is never sent — stops here) -/
+theorem fact_flush_clause : tables.acloseFlushesOnSslError = true := by decide
+
+/-- … and that the clause is `except SSLError:` -/
+theorem fact_flush_on : tables.acloseFlushOn = [tables.sslError] := by decide
+
+theorem fact_fail_caught (e : TExc) (p : Bool) (h1 : tables.sub e tables.sslError = true) :
+    sslFlushCaught tables (.cls e p) = true := by
+  simp only [sslFlushCaught, fact_flush_clause, fact_flush_on, catches, List.any_cons, List.any_nil, Bool.or_false, Bool.true_and]
+  exact h1
+
+/-- **the alert produced by the first `unwrap()` is handed to the wrapped transport — whether that call returned, wanted
+    I/O, or FAILED with an SSL error** (the inner `try` statement of `aclose`, table with the flush clause): the calls are
+    `ssl.unwrap`, possibly the two BIO eof marks of the retry loop's `except SSLError` (no call of the wrapped transport),
+    then `transport.send_all(<everything pending, ending with the alert>)`. -/
+theorem acloseUnwrap_alert_sent (fuel : Nat) (s : St) (a : SslAns TExc) (out : Nat) (hout : 0 < out) (rest0 : List (Resp TExc))
+    (ha : UnwrapAns a ∨ UnwrapFail a) (x : Option (Exn TExc)) (s2 : St) (rest : List (Resp TExc)) (calls : List Call)
+    (h : acloseUnwrap tables (fuel + 1) s (.ssl a out true :: rest0) = some (x, s2, rest, calls)) :
+    ∃ pre tail, calls = .ssl .unwrap :: (pre ++ .send (s.wpend + out) true :: tail) ∧ (pre = [] ∨ pre = [.rbioEof, .wbioEof]) := by
+  rcases ha with ha | ⟨e, p, ha, h1, h2, h3⟩
+  · -- returned / wants I/O: the retry loop itself sends it
+    unfold acloseUnwrap at h
+    split at h
+    · simp at h
+    · rename_i n s3 rest3 calls3 hr
+      obtain ⟨tail, ht⟩ := retry_unwrap_first _ _ a out hout rest0 ha _ _ _ _ hr
+      simp only [Option.some.injEq, Prod.mk.injEq] at h
+      obtain ⟨_, _, _, hc⟩ := h
+      subst hc; subst ht
+      exact ⟨[], tail, rfl, Or.inl rfl⟩
+    · rename_i y s3 rest3 calls3 hr
+      obtain ⟨tail, ht⟩ := retry_unwrap_first _ _ a out hout rest0 ha _ _ _ _ hr
+      subst ht
+      split at h
+      · split at h
+        · simp at h
+        · simp only [Option.some.injEq, Prod.mk.injEq] at h
+          obtain ⟨_, _, _, hc⟩ := h
+          subst hc
+          exact ⟨[], tail ++ _, rfl, Or.inl rfl⟩
+        · simp only [Option.some.injEq, Prod.mk.injEq] at h
+          obtain ⟨_, _, _, hc⟩ := h
+          subst hc
+          exact ⟨[], tail ++ _, rfl, Or.inl rfl⟩
+      · simp only [Option.some.injEq, Prod.mk.injEq] at h
+        obtain ⟨_, _, _, hc⟩ := h
+        subst hc
+        exact ⟨[], tail, rfl, Or.inl rfl⟩
+  · -- failed: `except SSLError` of the retry loop marks the BIOs and re-raises, `except SSLError` of aclose flushes
+    subst ha
+    have hw : (markBoth (addOut s out true)).wpend = s.wpend + out := rfl
+    have hal : (markBoth (addOut s out true)).walert = true := by simp [markBoth, addOut]; omega
+    have hne : ¬ (markBoth (addOut s out true)).wpend = 0 := by rw [hw]; omega
+    have hr : retry tables .unwrap (fuel + 1) s (.ssl (.raise e p) out true :: rest0) =
+        some (.exn (.cls e p), markBoth (addOut s out true), rest0, [.ssl .unwrap, .rbioEof, .wbioEof]) := by
+      simp only [retry, fact_fail_act e h1 h2 h3]
+    unfold acloseUnwrap at h
+    rw [hr] at h
+    simp only [fact_fail_caught e p h1, if_true, flush, hne, if_false] at h
+    split at h
+    · simp at h
+    · rename_i s3 rest3 calls3 hf
+      have C := (sendPending_ctl _ _ _ _ _ _ hf).2
+      simp only [Option.some.injEq, Prod.mk.injEq] at h
+      obtain ⟨_, _, _, hc⟩ := h
+      subst hc; rw [C, hw, hal]
+      exact ⟨[.rbioEof, .wbioEof], [], rfl, Or.inr rfl⟩
+    · rename_i z s3 rest3 calls3 hf
+      have C := (sendPending_ctl _ _ _ _ _ _ hf).2
+      simp only [Option.some.injEq, Prod.mk.injEq] at h
+      obtain ⟨_, _, _, hc⟩ := h
+      subst hc; rw [C, hw, hal]
+      exact ⟨[.rbioEof, .wbioEof], [], rfl, Or.inr rfl⟩
 
 end EasyNet.TlsEof
